@@ -345,7 +345,15 @@ func (x *Exec) val(st *State, v ssa.Value) Val {
 	case *ssa.Const:
 		return x.constVal(c)
 	case *ssa.Function:
-		return Val{T: x.fnRef(c), Fn: c}
+		v := Val{T: x.fnRef(c), Fn: c}
+		if st != nil {
+			// remembered by value, so that a call through a local variable finds the function
+			if st.clos == nil {
+				st.clos = map[string]Val{}
+			}
+			st.clos[v.T.Key()] = v
+		}
+		return v
 	case *ssa.Global:
 		return Val{Addr: &Addr{Root: rGlobal, Key: regHeap("G$"+smtName(c.String()), sortOfStatic(derefType(c.Type()))), Ty: derefType(c.Type())}}
 	case *ssa.Builtin:
